@@ -179,6 +179,20 @@ pub fn generate(s: &mut Session, tier: &str, rng: &mut Rng) {
             }
         }
     }
+    // ---- system level: a flow that only receives, beside more short flows than the client keeps bindings
+    for base in protocol_ciphers(rng).into_iter().filter(|c| matches!((c.protocol, c.cipher, c.users.as_str()), ("shadowsocks", "aes-128-gcm", _) | ("vmess", "aes-128-gcm", _))) {
+        let mut base = base;
+        base.udp = true;
+        let cfg = base.with("tcp");
+        s.begin_case(&format!("receive-only-flow-beside-many:{}", cfg.label()));
+        let Some(w) = cfg.start(s, false, 4) else { continue };
+        let r = s.run(&format!("e2e.udplru {} n=70", w));
+        if r != "stream=alive answered=70" {
+            s.oracle_fail(&format!("receive-only-flow-beside-many:{}", cfg.label()), &format!("a flow that goes on receiving lost its binding to short flows that came and went (or they went unanswered): `{}`", r));
+        }
+        s.run(&format!("e2e.stop {}", w));
+        s.mark_nontrivial();
+    }
     // ---- system level: alone, then all at once
     let all = protocol_ciphers(rng);
     let picks: Vec<Cfg> = if thorough { all } else { all.into_iter().filter(|c| matches!((c.protocol, c.cipher, c.users.as_str()), ("shadowsocks", "chacha20-ietf-poly1305", _) | ("shadowsocks", "2022-blake3-chacha20-poly1305", _) | ("shadowsocks", "2022-blake3-aes-256-gcm", "alice") | ("vmess", "aes-128-gcm", _) | ("trojan", _, _)) || c.users.starts_with("alice") && c.cipher.ends_with("256-gcm")).collect() };
